@@ -217,7 +217,7 @@ func runProcSeq(clients []client, evs []procEvent, root string, res *TaskResult)
 		switch ev.K {
 		case "corrupt":
 			bad := append([]byte(nil), orig...)
-			bad[len(bad)/2] ^= 0x40
+			bad[9] ^= 0x40 // inside the FIRST record (valid data follows: not a torn tail, Open must fail)
 			os.WriteFile(dataFile, bad, 0o644)
 			corrupt = true
 			tr = append(tr, "corrupt")
@@ -560,7 +560,7 @@ func init() {
 		Rule:   "explicit enumeration of ALL event sequences of the given length over {Open_i, Close_i, Corrupt, Repair} for 2-3 clients on one pre-populated directory against a one-variable model (holder, corrupt flag): mutual exclusion, ErrDatabaseIsUsing + byte-identical directory for a rejected Open, lock released by Close and by a failed Open. Every sequence is executed in-process (flock on separate descriptors excludes like separate processes) and, at the child level, with REAL child processes whose transcript must agree. Racing Opens of a fresh / pre-populated directory are explored under the controlled scheduler with every file-system and flock call as a schedule point. states = distinct transcripts; non-trivial = sequences with both a rejected Open and a failed Open",
 		Assumptions: []string{
 			"GC is disabled during an execution so that a leaked lock descriptor is not released by a finalizer at a random moment",
-			"Corrupt flips one bit in the middle of the first data file (Open then fails after it has taken the lock)",
+			"Corrupt flips one bit inside the first record of the first data file, which is followed by an intact record (not a torn tail: Open then fails after it has taken the lock)",
 		},
 		Tasks: func(tier string) []Task {
 			d2, d3, dc, pb := 8, 6, 6, -1
